@@ -43,7 +43,7 @@ func main() {
 	}
 	type pkg struct {
 		dir, name, imp string
-		vars            []string
+		vars           []string
 	}
 	var pkgs []pkg
 	_ = filepath.Walk(repo, func(p string, info os.FileInfo, err error) error {
